@@ -33,7 +33,7 @@ def fuzzy_set(rnd, lo=None, hi=None, max_terms=5, batch=None, d=3, kinds=None):
     n = rnd.choice([0, 1, 1, 2, 2, 3, 3, 4, 5][: max_terms + 4])
     n = min(n, max_terms)
     if batch is None:
-        batch = rnd.choice([0, 0, 0, 2, 3, 6])
+        batch = rnd.choice([0, 0, 0, 1, 2, 3, 6])
     acts = []
     for k in range(n):
         kind = rnd.choice(kinds or (G.SHAPES + ["Trapezoid", "Trapezoid", "Rectangle", "Triangle"]))
